@@ -394,12 +394,13 @@ class Script(object):
             else:  # Other opcode
                 if 1 <= ch <= 75:  # Data`
                     data_length = ch
-                elif ch == op.op_pushdata1:
-                    data_length = int.from_bytes(script.read(1), 'little')
-                elif ch == op.op_pushdata2:
-                    data_length = int.from_bytes(script.read(2), 'little')
-                elif ch == op.op_pushdata4:
-                    data_length = int.from_bytes(script.read(4), 'little')
+                elif ch in (op.op_pushdata1, op.op_pushdata2, op.op_pushdata4):
+                    size_length = {op.op_pushdata1: 1, op.op_pushdata2: 2, op.op_pushdata4: 4}[ch]
+                    size_bytes = script.read(size_length)
+                    data_length = int.from_bytes(size_bytes, 'little')
+                    if not data_length and len(size_bytes) == size_length:
+                        # A push of zero bytes: the empty item
+                        ch = op.op_0
                 if data_length:
                     data = script.read(data_length)
                     if len(data) != data_length:
